@@ -74,15 +74,15 @@ PROPS['C14'] = dict(
     not_decided=['cmake ${VAR} / #cmakedefine scanner (index loop with in-place mutation)', 'every other byte copied unchanged: follows from re.sub semantics (assumed) and the bounded scanner comparison'],
 )
 PROPS['C02'] = dict(
-    modules=['contracts.parser'],
+    modules=['contracts.parser', 'lemmas.parser'],
     bounded=['bounded.parser'],
     level='other',
-    design_ref='DESIGN.md §4 C02',
-    technique='deductive (kernel): SMT audit of the real token table (regex languages via Python\'s own pattern parser) against the AST of Lexer.lex — progress and newline bookkeeping per token kind; totality, tiling, positions, parser round trip and node extents bounded-exhaustive over short texts/token strings and the shipped build files',
-    level_text='Discharged for all strings: no pattern of the token table matches the empty string (the scan advances), and every token kind whose language admits a newline has a lineno update in lex (this obligation failed for string/fstring on the pinned tree and found the fixed line-number defect). Everything else about C02 (tiling, located errors, lossless printing, extents) is checked by exhaustive enumeration to a stated bound, labelled bounded.',
-    level_note='Parser token accounting and the printer visitors are NOT under contract; the bounded layer enumerates all texts <= 4 symbols / token strings <= 3 tokens (quick) and the repository build files.',
-    explanation='kernel: token-table obligations (SMT, all strings); the rest of the property is a bounded stand-in (see coverage.bounded)',
-    not_decided=['parser token accounting (every consumed token is in the tree) as a proof', 'printer visitors'],
+    design_ref='DESIGN.md §4 C02, §0.6',
+    technique='deductive (kernel): VCs from the real AST of Lexer.lex (the while loop with an inductive invariant over the ghost sequence of yielded tokens; regex matches abstract, constrained to the language of the live pattern; two induction lemmas over the tiling predicate) + SMT audit of the real token table against the AST of lex; line/column positions, parser round trip and node extents bounded-exhaustive over short texts, structured programs and the shipped build files',
+    level_text='Proved for all texts (both the build-file and the machine-file token table): the tokens yielded by Lexer.lex tile the text — adjacent, non-empty byte spans from 0 to the end —, the scan position strictly increases (termination), every index/key access is guarded and nothing but ParseException escapes. Discharged for all strings: no pattern of the token table matches the empty string, and every token kind whose language admits a newline has a lineno update in lex (this obligation failed for string/fstring on the pinned tree and found the fixed line-number defect). Everything else about C02 (line/column values, located errors, lossless printing, extents) is checked by enumeration to a stated bound, labelled bounded.',
+    level_note='Assumed: Pattern.match(string, pos) as a match on string[pos:] (no anchors/look-around in the table, checked), the matched text is a prefix of the subject in the language of the pattern, str.find/rfind/count/split facts (stdlib), mlog and BaseNode as effects/opaque. NOT proved: the VALUES of lineno/colno/line_start (needs substring/contains reasoning that only cvc5 decides, at a cost the quick tier cannot pay; bounded instead), parser token accounting, the printer visitors.',
+    explanation='kernel: lexer tiling/termination/exceptions and token-table obligations (SMT, all strings); the rest of the property is a bounded stand-in (see coverage.bounded)',
+    not_decided=['line and column values of tokens as a proof (bounded only)', 'parser token accounting (every consumed token is in the tree) as a proof', 'printer visitors'],
 )
 PROPS['C03'] = dict(
     modules=['specs.quoting', 'contracts.quoting', 'contracts.regexes'],
